@@ -106,6 +106,20 @@ Theorem C12_refused_create : forall l v slot,
      (r_kind x = 2 -> r_live x = true /\ r_unmaps x = O)).
 Proof. exact refused_create_lemma. Qed.
 
+(* ---------------------------------------------------------------- locality ("unmapped exactly once, NOTHING ELSE touched")
+   [args o]: the handles operation o is given.  An operation changes only the records of regions reachable from
+   them; every other region keeps its mapping state, its munmap count and its strong count.  The munmap a Drop
+   issues is `munmap(self.addr, self.size)` of the region's OWN mapping (drop_region: no input but the region's
+   record - not the file offset, the flags or the caller's hugetlbfs hint), so it cannot reach a neighbour *)
+Theorem C12_op_local : forall l o r, r < nreg (run l) -> ~ args_reach (run l) o r ->
+  reg (run (l ++ [o])) r = reg (run l) r.
+Proof. exact op_local_lemma. Qed.
+
+Theorem C12_drop_local : forall l h r, r < nreg (run l) ->
+  (forall hd, get_handle (run l) h = Some hd -> ~ In r (reach_list (run l) hd)) ->
+  reg (run (l ++ [DropH h])) r = reg (run l) r.
+Proof. exact drop_local_lemma. Qed.
+
 (* (kept; subsumed by C12_model_ok) the [live] component of every observation the machine produces is
    the one the checker demands, with "reachable" read through [owners] (C12_owners_pos_iff_reaches) *)
 Theorem C12_model_live_partial : forall l,
@@ -163,6 +177,8 @@ Print Assumptions C12_run_snoc.
 Print Assumptions C12_refused_unchanged.
 Print Assumptions C12_refused_consumed.
 Print Assumptions C12_refused_create.
+Print Assumptions C12_op_local.
+Print Assumptions C12_drop_local.
 Print Assumptions C12_model_live_partial.
 Print Assumptions C12_refusals_nonvacuous.
 
